@@ -89,6 +89,8 @@ Lemma need_slice_ok a i k : (i <= alen a)%nat -> need_slice a i k = k.
 Proof. unfold need_slice. intro H. destruct (Nat.leb i (alen a)) eqn:E; [reflexivity|lia]. Qed.
 Lemma parse_i_np a i k : (i < alen a)%nat -> k <> APanic -> parse_i a i k <> APanic.
 Proof. unfold parse_i. intros H Hk. rewrite need_ok by exact H. destruct (parse_int (arg a i)); [exact Hk|discriminate]. Qed.
+Lemma parse_a_np a i k : (i < alen a)%nat -> k <> APanic -> parse_a a i k <> APanic.
+Proof. unfold parse_a. intros H Hk. rewrite need_ok by exact H. destruct (parse_int (arg a i)); [exact Hk|discriminate]. Qed.
 Lemma parse_f_np a i k : (i < alen a)%nat -> k <> APanic -> parse_f pf a i k <> APanic.
 Proof. unfold parse_f. intros H Hk. rewrite need_ok by exact H. destruct (pf (arg a i)); [exact Hk|discriminate]. Qed.
 
@@ -153,6 +155,7 @@ Ltac np :=
     [ rewrite need_ok by lia
     | rewrite need_slice_ok by lia
     | apply parse_i_np; [lia|]
+    | apply parse_a_np; [lia|]
     | apply parse_f_np; [lia|]
     | discriminate
     | match goal with |- (if ?c then _ else _) <> APanic => destruct c eqn:? end
@@ -634,4 +637,50 @@ Proof.
     unfold entry_ok in Hok. rewrite Hk in Hok.
     destruct (guar_write (r_wrap r) (r_params r)) as [g|] eqn:Hg; [|discriminate].
     destruct (leader_write_spec pf _ _ _ _ _ _ _ Hg Hl) as (_ & [tl ->] & _). reflexivity.
+Qed.
+
+(* ====================== classification of apply errors ====================== *)
+(* ApplyRaftRequest panics when isUnrecoveryError(err) holds. The errors the apply handlers of the node
+   layer return quote client bytes (strconv errors, the command name): the classification must never
+   depend on those bytes. *)
+Fixpoint differ_within (a b : bytes) : bool :=
+  match a, b with
+  | x :: a', y :: b' => negb (x =? y) || differ_within a' b'
+  | _, _ => false
+  end.
+Lemma differ_no_prefix p pat rest : differ_within p pat = true -> prefix_of pat (p ++ rest) = false.
+Proof.
+  revert pat. induction p as [|x p IH]; intros pat H; [destruct pat; discriminate|].
+  destruct pat as [|y pat]; [discriminate|]. simpl in *.
+  destruct (N.eqb_spec x y) as [->|Hn].
+  - rewrite N.eqb_refl. simpl in *. apply IH. exact H.
+  - replace (y =? x) with false; [reflexivity|]. symmetry. apply N.eqb_neq. congruence.
+Qed.
+
+(* whatever the client bytes inside the message are, a node-layer apply error is not "unrecoverable":
+   the matcher read from the source is the prefix test and every message starts with a fixed text that
+   differs from the pattern *)
+Theorem error_never_unrecoverable : forall e rest, is_unrecovery (err_prefix e ++ rest) = false.
+Proof.
+  intros e rest. unfold is_unrecovery.
+  replace (gname_eqb unrecovery_matcher "prefix") with true by (vm_compute; reflexivity).
+  apply differ_no_prefix.
+  destruct e as [a|a|a|f|n]; [| | |destruct f|]; vm_compute; reflexivity.
+Qed.
+
+(* a "contains" matcher (case folded or not) would be unsafe: the quoted argument can carry the pattern *)
+Lemma contains_matcher_refuted :
+  exists a, contains (lower (B "no space left on device"))
+                     (lower (err_prefix (EAtoi a) ++ 34 :: a ++ 34 :: B ": invalid syntax")) = true.
+Proof. exists (B "IO error: No space left on device"). vm_compute. reflexivity. Qed.
+
+(* an accepted command ends in the store call or in one of the described errors *)
+Corollary accepted_apply_outcome : forall pf ns args f a,
+  proposed pf ns args f = Some a ->
+  apply_shape pf false a = AReach \/
+  exists e, apply_shape pf false a = AErr e /\ forall rest, is_unrecovery (err_prefix e ++ rest) = false.
+Proof.
+  intros pf ns args f a H. pose proof (validated_implies_safe _ _ _ _ _ H) as Hs.
+  destruct (apply_shape pf false a) as [|e|]; [congruence| |left; reflexivity].
+  right. exists e. split; [reflexivity|]. intro rest. apply error_never_unrecoverable.
 Qed.
